@@ -1510,6 +1510,8 @@ func makeTaskForMesosResources(
 	resourcesRequest := make(mesos.Resources, 0)
 	resourcesRequest.Add1(resources.NewCPUs(wants.Cpu).Resource)
 	resourcesRequest.Add1(resources.NewMemory(wants.Memory).Resource)
+	// ...and they are no longer available to the next descriptor matched against this offer
+	remainingResourcesInOffer.Subtract(resourcesRequest...)
 	portsBuilder := resources.BuildRanges()
 	for _, rng := range wants.StaticPorts {
 		portsBuilder = portsBuilder.Span(rng.Begin, rng.End)
